@@ -54,3 +54,17 @@ Theorem C02_reader_frames_pass_gate : forall cfg st s f st' s' d,
   exists f0, check_dialect d f0 = RFrame f.
 Proof. exact reader_frame_from_gate. Qed.
 Print Assumptions C02_reader_frames_pass_gate.
+
+(* ---- tie by translation (gen/SrcX25.v is regenerated from pkg/x25/x25.go on every run) ----
+   the hash as the source computes it, statement by statement (Reset, then the loop of Write over
+   the bytes), is CRC-16/MCRF4XX for every byte string; Sum appends it low byte first *)
+From Coq Require Import NArith List.
+From GM Require Import SrcPrelude SrcX25 SrcX25Tie.
+Theorem C02_source_hash_is_mcrf4xx : forall p, Bytes.bytes_ok p = true ->
+  src_x25_X25_Write (src_x25_X25_Reset 0%N) p = Crc.mcrf4xx p.
+Proof. exact src_x25_is_mcrf4xx. Qed.
+Print Assumptions C02_source_hash_is_mcrf4xx.
+
+Theorem C02_source_sum_bytes : forall c b, src_x25_X25_Sum c b = (b ++ X25.x25_sum_bytes c)%list.
+Proof. exact src_x25_sum. Qed.
+Print Assumptions C02_source_sum_bytes.
